@@ -415,18 +415,34 @@ class Recorder:
 # ----------------------------------------------------------------------------
 # initialisations
 # ----------------------------------------------------------------------------
-def init_spec(kinds=("svd", "random", "user")):
-    return st.fixed_dictionaries({"kind": st.sampled_from(list(kinds)), "seed": st.integers(0, 10 ** 6)})
+def init_spec(kinds=("svd", "random", "user"), weights=None):
+    """weights: classes of CP weights of a *user* init ("none", "ones", "pos", "mixed"); default: unit weights only"""
+    d = {"kind": st.sampled_from(list(kinds)), "seed": st.integers(0, 10 ** 6)}
+    if weights:
+        d["w"] = st.sampled_from(list(weights))
+    return st.fixed_dictionaries(d)
+
+
+def init_weights(spec, rs, rank):
+    wk = spec.get("w", "none")
+    if wk == "none":
+        return None
+    if wk == "ones":
+        return np.ones(rank)
+    w = rs.uniform(0.5, 2.5, rank)
+    if wk == "mixed":
+        w = w * rs.choice([-1.0, 1.0], rank)
+    return w
 
 
 def cp_init(spec, shape, rank, nonneg=False):
     if spec["kind"] in ("svd", "random"):
         return spec["kind"]
     rs = np.random.RandomState(spec["seed"])
-    fs = [rs.standard_normal((int(s), rank)) for s in shape]
+    fs = [rs.standard_normal((int(s), rank)) for s in shape]        # columns are not unit-norm
     if nonneg:
         fs = [np.abs(f) + 0.01 for f in fs]
-    return (None, fs)      # unit weights (non-unit weights in a user init are C14's subject)
+    return (init_weights(spec, rs, rank), fs)   # unit weights unless the spec asks for a weight class
 
 
 def tucker_init(spec, shape, ranks, modes=None, nonneg=False):
@@ -460,6 +476,11 @@ class Adapter:
 
     def cond(self, snap, case):
         return 1.0
+
+    def init_snapshot(self, data, case):
+        """snapshot of the initial decomposition when the harness knows it (user init), for algorithms
+        without a callback; None otherwise"""
+        return None
 
     # C06: compare one reported value with the truth; returns the true *relative* error
     def mag(self, snap):
@@ -509,6 +530,8 @@ class Parafac(CPAdapter):
             kw["sparsity"] = case["sparsity"]
         if case.get("cvg"):
             kw["cvg_criterion"] = case["cvg"]
+        if case.get("fixed_modes"):
+            kw["fixed_modes"] = [int(m) for m in case["fixed_modes"]]      # fresh list per call
         if callback is not None:
             kw["callback"] = callback
         with global_seed(case["init"]["seed"]):
@@ -517,6 +540,10 @@ class Parafac(CPAdapter):
             check(isinstance(out, tuple) and len(out) == 2, "structure", "return_errors=True did not return a pair")
             return out[0], out[1]
         return out, None
+
+    def cond(self, snap, case):
+        fixed = case.get("fixed_modes") or []
+        return cp_gram_cond(snap["w"], snap["f"], modes=[m for m in range(len(snap["f"])) if m not in fixed])
 
 
 class RandomisedParafac(CPAdapter):
@@ -558,13 +585,15 @@ class NNParafacHALS(CPAdapter):
                                             sparsity_coefficients=None if sc is None else list(sc),
                                             nn_modes=_nn_modes(case.get("nn_modes", "all")),
                                             normalize_factors=bool(case.get("normalize", False)),
+                                            fixed_modes=[int(m) for m in case.get("fixed_modes") or []] or None,
                                             exact=False, return_errors=True)
         return out[0], out[1]
 
     def cond(self, snap, case):
         nn = case.get("nn_modes", "all")
         order = len(snap["f"])
-        free = [] if nn == "all" else [m for m in range(order) if nn is None or m not in nn]
+        fixed = case.get("fixed_modes") or []
+        free = [] if nn == "all" else [m for m in range(order) if (nn is None or m not in nn) and m not in fixed]
         return cp_gram_cond(snap["w"], snap["f"], modes=free) if free else 1.0
 
 
@@ -687,13 +716,48 @@ class Parafac2(Adapter):
         sl = [s.copy() for s in data]
         if case["X"].get("nd"):
             sl = np.stack(sl)
+        init = case["init"]["kind"]
+        if init == "user":
+            init = self.user_init(data, case)[0]
         with global_seed(case["init"]["seed"]):
-            out = parafac2(sl, case["rank"], n_iter_max=int(n_iter), init=case["init"]["kind"],
+            out = parafac2(sl, case["rank"], n_iter_max=int(n_iter), init=init,
                            normalize_factors=bool(case.get("normalize", False)), tol=case["tol"],
                            nn_modes=_nn_modes(case.get("nn_modes")), random_state=case["init"]["seed"],
                            return_errors=True, n_iter_parafac=int(case.get("n_iter_parafac", 5)),
                            linesearch=bool(case.get("linesearch", False)))
         return out[0], out[1]
+
+    def user_init(self, data, case):
+        """(init argument, snapshot of the decomposition it represents).  form "pf2": Parafac2Tensor triple
+        (weights, [A, B, C], projections) with orthonormal projections; form "cp": CP pair (weights, [A, B, C])
+        with B of shape (J, R) (equal row counts) which the library splits by QR.  Factors of the modes in
+        nn_modes are generated non-negative (feasible start)."""
+        spec = case["init"]
+        rs = np.random.RandomState(spec["seed"])
+        R, K, J = int(case["rank"]), data[0].shape[1], [s.shape[0] for s in data]
+        nn = case.get("nn_modes")
+        nn = [0, 1, 2] if nn == "all" else (nn or [])
+        A = rs.uniform(0.3, 1.5, (len(data), R))
+        C = rs.standard_normal((K, R))
+        if 2 in nn:
+            C = np.abs(C) + 0.01
+        w = init_weights(spec, rs, R)
+        if w is not None:
+            w = np.abs(w)          # the weights multiply B; keep B's sign pattern (feasibility under nn_modes)
+        if spec.get("form") == "cp" and len(set(J)) == 1 and J[0] >= R and 1 not in nn:
+            B = rs.standard_normal((J[0], R))
+            Q, Rm = np.linalg.qr(B)
+            snap = {"w": None if w is None else w.copy(), "f": [A.copy(), Rm, C.copy()], "p": [Q.copy() for _ in J]}
+            return (None if w is None else w.copy(), [A.copy(), B.copy(), C.copy()]), snap
+        B = rs.standard_normal((R, R))
+        if 1 in nn:
+            B = np.abs(B) + 0.01
+        P = [gen.orthonormal(rs.randint(0, 2 ** 31 - 1), j, R) for j in J]
+        snap = {"w": None if w is None else w.copy(), "f": [A.copy(), B.copy(), C.copy()], "p": [p.copy() for p in P]}
+        return (None if w is None else w.copy(), [A.copy(), B.copy(), C.copy()], [p.copy() for p in P]), snap
+
+    def init_snapshot(self, data, case):
+        return self.user_init(data, case)[1] if case["init"]["kind"] == "user" else None
 
     def cond(self, snap, case):
         nn = case.get("nn_modes")
@@ -831,6 +895,9 @@ def trace(A, data, case, via):
         return snaps, errs, len(rec.calls) - 1
     runs = prefix_runs(A, data, case, case["n_iter"])
     snaps = [(k, s) for (k, s, _) in runs]
+    s0 = A.init_snapshot(data, case)
+    if s0 is not None:              # sweep 0 = the supplied initial decomposition
+        snaps = [(0, s0)] + snaps
     errs = runs[-1][2]
     return snaps, errs, (len(errs) if errs is not None else len(runs))
 
